@@ -935,11 +935,16 @@ def read_values(W):
     ok = True
     pv = {n: float(v) for n, v in zip(W.names, W.multi.parameter_values)}
     for n in sorted(W.fixed):
+        if W.minview[n] == W.values[n]:
+            # the value went through the multi-fit itself: whether the backend keeps a fixed parameter is C06's statement
+            if pv[n] != W.values[n]:
+                ctx.note("fixed-parameter-moved-in-do_fit-without-member-set(C06)")
+            continue
 
         def key(n=n):
-            return K_MSET if (pv[n] == W.minview[n] and W.minview[n] != W.values[n]) else None
+            return K_MSET if pv[n] == W.minview[n] else None
 
-        ok &= ctx.eq("values.fixed-after-do_fit", pv[n], W.values[n], key=key, detail={"name": n, "value_last_passed_through_the_multi_fit": W.minview[n], "history": [o[0] for o in W.case["history"]]})
+        ok &= ctx.eq("values.member-set-fixed-after-do_fit", pv[n], W.values[n], key=key, detail={"name": n, "value_last_passed_through_the_multi_fit": W.minview[n], "history": [o[0] for o in W.case["history"]]})
     W.values.update(pv)
     W.minview.update(pv)
     return ok
